@@ -1,4 +1,5 @@
 import GrinVerif.Lemmas.KeysArith
+import GrinVerif.Lemmas.KeysView
 /-! # C20 — keys, commitments and range-proof rewind are deterministic and recoverable
 
 Property theorems only. What is proved here is the **logic layer**: blinding-factor arithmetic
@@ -514,6 +515,199 @@ example :
       proofRewind toyCrypto (newBuilder freeKD (fun _ => 11) (fun _ => 12)) c proof = .some (2^64 - 1) id .none ∧
       proofRewind toyCrypto (newBuilder freeKD (fun _ => 99) (fun _ => 12)) c proof = .none) := by
   refine ⟨toIdentifier_WF _, by decide, _, _, rfl, rfl, by decide, by decide⟩
+
+/-! ## view keys of (hardened) accounts: the path algebra -/
+
+/-- non-vacuity of `DeriveInj` (collision-freedom of the key derivation): the term model, in which
+the key at a path is the path itself, satisfies it -/
+example : DeriveInj termKD := termKD_inj
+
+/-- **view_key_covers_iff.** Take any keychain whose derivation is collision-free, the view key made
+from its private key at `m/vk` (any depth, hardened words allowed: `ViewKey::create(keychain,
+master.derive_priv(vk), ..)`), and an output `(amount ≠ 0, id, SwitchCommitmentType::None)` of that
+keychain with `depth(id) ≤ 4`. `check_output` of the view key on the output's own message returns
+exactly `(id, None)` **iff** the view key covers `id`: `depth(id) ≥ d`, the first `d` words of `id`
+are `vk`, and the words `d..depth` are all normal (< 2^31). Otherwise — a hardened step below the
+view key, another account, a shorter path — it returns something else (never a wrong identifier:
+`view_check_exact`). -/
+theorem view_key_covers_iff {K : Type} (kd : KeyDeriv K) (hinj : DeriveInj kd) (vk : List ChildNumber)
+    (amount : Nat) (id : Ident) (c : Opening) (hid : IdWF id) (hd : id.toPath.depth ≤ 4)
+    (ha : amount ≠ 0) (hc : commit kd amount id .none = .ok c) :
+    viewCheckAt kd vk c amount (proofMessage id .none) = .some id .none ↔ viewCovers vk id = true := by
+  rw [viewCheckAt_honest_none kd vk c amount id hid hd, viewCovers_iff]
+  constructor
+  · intro h
+    split at h
+    · cases h
+    · rename_i h1
+      split at h
+      · cases h
+      · split at h
+        · cases h
+        · rename_i h3
+          split at h
+          · rename_i h4
+            exact ⟨hd, by omega, covers_of_pubMatches kd hinj vk amount id c hd hc h4, by simpa using h3⟩
+          · cases h
+  · rintro ⟨_, h1, h2, h3⟩
+    rw [if_neg (by omega)]
+    have hch : (decide (vk.length > 0) && decide (id.toPath.depth > 0) &&
+        (id.toPath.get? (vk.length - 1) != some (vkChildNumber vk))) = false := by
+      by_cases h0 : 0 < vk.length
+      · rw [covers_child vk id hd h1 h0 h2]; simp
+      · simp [h0]
+    rw [hch, h3, if_neg ha, pubMatches_of_covers kd vk amount id c hd hc h2]
+    simp
+
+/-- Exactness of the view key's `check_output` on an honest message, for **every** amount and both
+switch modes: whatever it returns, it is never a wrong identifier or mode — a `Some` result is
+`(id, None)`, the amount is not 0, and the view key covers `id`. (`Regular` and amount 0 give `Err`:
+recorded finding C20-view-key-limits.) -/
+theorem view_check_exact {K : Type} (kd : KeyDeriv K) (hinj : DeriveInj kd) (vk : List ChildNumber)
+    (amount : Nat) (id id' : Ident) (sw sw' : Switch) (c : Opening) (hid : IdWF id)
+    (hd : id.toPath.depth ≤ 4) (hc : commit kd amount id sw = .ok c)
+    (h : viewCheckAt kd vk c amount (proofMessage id sw) = .some id' sw') :
+    id' = id ∧ sw' = .none ∧ sw = .none ∧ amount ≠ 0 ∧ viewCovers vk id = true := by
+  have h0 := h
+  rw [viewCheckAt_honest kd vk c amount id sw hid hd] at h
+  split at h
+  · cases h
+  · split at h
+    · cases h
+    · split at h
+      · cases h
+      · split at h
+        · cases h
+        · rename_i ha
+          cases sw with
+          | regular => cases h
+          | none =>
+            simp only at h
+            split at h
+            · injection h with h1 h2
+              subst h1; subst h2
+              exact ⟨rfl, rfl, rfl, ha, (view_key_covers_iff kd hinj vk amount id c hid hd ha hc).mp h0⟩
+            · cases h
+
+/-- **rewind_with_view_key_exact.** Given the contracts of `Crypto`: the proof created by
+`ProofBuilder` for an output `(0 < amount < 2^64, id of depth ≤ 4, None)` is rewound by the view key
+made from the private key at `m/vk` of the same keychain to exactly `(amount, id, None)` when the
+view key covers `id`, and to `None` (nothing) when it does not — whatever the depth of the view
+key and whether its words are hardened. -/
+theorem rewind_with_view_key_exact {K P : Type} (kd : KeyDeriv K) (hinj : DeriveInj kd) (cr : Crypto P)
+    (rn pn : Opening → Nat) (vk : List ChildNumber) (amount : Nat) (id : Ident) (c : Opening) (proof : P)
+    (hid : IdWF id) (hd : id.toPath.depth ≤ 4) (ha : amount < 2^64) (ha0 : amount ≠ 0)
+    (hc : commit kd amount id .none = .ok c)
+    (hp : proofCreate kd cr (newBuilder kd rn pn) amount id .none = .ok proof) :
+    proofRewind cr (viewBuilder kd vk rn) c proof =
+      if viewCovers vk id = true then .some amount id .none else .none := by
+  have hv := commit_ok hc
+  simp only [proofCreate, hc, newBuilder] at hp
+  injection hp with hp
+  subst hp
+  obtain ⟨v, k⟩ := c
+  simp only at hv
+  subst hv
+  have hlen : (proofMessage id .none).length = 20 := by
+    obtain ⟨hl, _⟩ := hid
+    simp [proofMessage, hl]
+  simp only [proofRewind, viewBuilder, cr.rewind_same _ _ _ _ _ ha hlen]
+  have hiff := view_key_covers_iff kd hinj vk v id ⟨v, k⟩ hid hd ha0 hc
+  by_cases hcov : viewCovers vk id = true
+  · rw [if_pos hcov, hiff.mpr hcov]
+  · rw [if_neg hcov]
+    cases hr : viewCheckAt kd vk ⟨v, k⟩ v (proofMessage id .none) with
+    | none => rfl
+    | some id' sw' =>
+      obtain ⟨h1, h2, _, _, h5⟩ := view_check_exact kd hinj vk v id id' .none sw' ⟨v, k⟩ hid hd hc hr
+      exact absurd h5 hcov
+    | err =>
+      exfalso
+      rw [viewCheckAt_honest kd vk ⟨v, k⟩ v id .none hid hd] at hr
+      simp only [ha0, if_false] at hr
+      repeat' split at hr
+      all_goals cases hr
+    | panic =>
+      exfalso
+      rw [viewCheckAt_honest kd vk ⟨v, k⟩ v id .none hid hd] at hr
+      simp only [ha0, if_false] at hr
+      repeat' split at hr
+      all_goals cases hr
+
+/-- Non-vacuity (kernel-evaluated on the collision-free term keychain): the view key of the hardened
+account `m/0'` rewinds the outputs at `m/0'/5/9`, `m/0'/5`, `m/0'/1/2/3` and at `m/0'` itself to
+exactly (amount, full path, None), amount `2^64-1` included; it does not rewind `m/0'/5'/9` (hardened
+step below the view key), `m/1'/5/9` (another account), `m/0/5/9` (the normal account 0) or the
+root; the view key at depth 2 `m/7/0'` covers `m/7/0'/3` but not `m/8/0'/3`, which shares its
+`child_number` and differs only in an earlier word. -/
+example :
+    toyViewRewind [.hardened 0] (2^64 - 1) (deriveKeyId 3 (2^31) 5 9 77) =
+      .some (2^64 - 1) (deriveKeyId 3 (2^31) 5 9 77) .none ∧
+    toyViewRewind [.hardened 0] 1 (deriveKeyId 2 (2^31) 5 0 0) = .some 1 (deriveKeyId 2 (2^31) 5 0 0) .none ∧
+    toyViewRewind [.hardened 0] 7 (deriveKeyId 4 (2^31) 1 2 3) = .some 7 (deriveKeyId 4 (2^31) 1 2 3) .none ∧
+    toyViewRewind [.hardened 0] 7 (deriveKeyId 1 (2^31) 0 0 0) = .some 7 (deriveKeyId 1 (2^31) 0 0 0) .none ∧
+    toyViewRewind [.hardened 0] 7 (deriveKeyId 3 (2^31) (2^31 + 5) 9 0) = .none ∧
+    toyViewRewind [.hardened 0] 7 (deriveKeyId 3 (2^31 + 1) 5 9 0) = .none ∧
+    toyViewRewind [.hardened 0] 7 (deriveKeyId 3 0 5 9 0) = .none ∧
+    toyViewRewind [.hardened 0] 7 (deriveKeyId 0 0 0 0 0) = .none ∧
+    toyViewRewind [.normal 7, .hardened 0] 7 (deriveKeyId 3 7 (2^31) 3 0) =
+      .some 7 (deriveKeyId 3 7 (2^31) 3 0) .none ∧
+    toyViewRewind [.normal 7, .hardened 0] 7 (deriveKeyId 3 8 (2^31) 3 0) = .none ∧
+    viewCovers [.hardened 0] (deriveKeyId 3 (2^31) 5 9 77) = true ∧
+    viewCovers [.hardened 0] (deriveKeyId 3 (2^31) (2^31 + 5) 9 0) = false := by
+  refine ⟨?_, ?_, ?_, ?_, ?_, ?_, ?_, ?_, ?_, ?_, ?_, ?_⟩ <;> decide +kernel
+
+/-! ## determinism across the history of a keychain instance -/
+
+/-- **derive_history_independent.** The answer of a keychain instance to `derive_key(amount, id,
+switch)` does not depend on what was derived on that instance before: after any sequence `before`
+of earlier calls the answer is the one of a fresh keychain from the same seed — in particular for
+identifiers that share their 16 path bytes with earlier ones and differ only in depth. In the model
+this is immediate (`derive_key` takes `&self` and works on copies of the hasher and the master key,
+so the model has no instance state at all); that the real instance and its clones behave like that
+is established by the `history` correspondence run, not by this theorem. -/
+theorem derive_history_independent {K : Type} (kd : KeyDeriv K) (before : List Query) (amount : Nat)
+    (id : Ident) (sw : Switch) :
+    (deriveSeq kd (before ++ [(amount, id, sw)])).getLast? = some (deriveKey kd amount id sw) ∧
+    (deriveSeq kd (before ++ [(amount, id, sw)])).getLast? = (deriveSeq kd [(amount, id, sw)]).getLast? := by
+  simp [deriveSeq]
+
+/-- … and the commitment likewise: `commit` is `derive_key` followed by the Pedersen commitment. -/
+theorem commit_history_independent {K : Type} (kd : KeyDeriv K) (before : List Query) (amount : Nat)
+    (id : Ident) (sw : Switch) (k : Nat)
+    (h : (deriveSeq kd (before ++ [(amount, id, sw)])).getLast? = some (.ok k)) :
+    commit kd amount id sw = .ok ⟨amount, k⟩ := by
+  have := (derive_history_independent kd before amount id sw).1
+  rw [this] at h
+  injection h with h
+  simp [commit, h]
+
+/-- The key is a function of (seed, depth, the first `depth` words, switch, amount under Regular)
+only: two identifiers with the same depth byte (≤ 4) and the same used words derive the same key,
+whatever their unused path bytes are — and nothing else of the identifier is read. -/
+theorem derive_reads_depth_and_words {K : Type} (kd : KeyDeriv K) (amount : Nat) (id id' : Ident)
+    (sw : Switch) (hd : id.toPath.depth = id'.toPath.depth) (hw : id.words = id'.words) :
+    deriveKey kd amount id sw = deriveKey kd amount id' sw := by
+  have : id.toPath.prefix? = id'.toPath.prefix? := by
+    simp only [Ident.words] at hw
+    unfold Path.prefix?
+    rw [hd] at hw ⊢
+    rw [hw]
+  simp only [deriveKey, this]
+
+/-- Non-vacuity: `m/7`, `m/7/0`, `m/7/0/0` share their 16 path bytes and differ in depth; on the
+term keychain they derive three different keys, in any order of asking. -/
+example :
+    (deriveKeyId 1 7 0 0 0).drop 1 = (deriveKeyId 2 7 0 0 0).drop 1 ∧
+    (deriveKeyId 2 7 0 0 0).drop 1 = (deriveKeyId 3 7 0 0 0).drop 1 ∧
+    ∃ x y z, deriveKey termKD 5 (deriveKeyId 1 7 0 0 0) .none = .ok x ∧
+      deriveKey termKD 5 (deriveKeyId 2 7 0 0 0) .none = .ok y ∧
+      deriveKey termKD 5 (deriveKeyId 3 7 0 0 0) .none = .ok z ∧
+      (deriveSeq termKD [(5, deriveKeyId 3 7 0 0 0, .none), (5, deriveKeyId 2 7 0 0 0, .none),
+        (5, deriveKeyId 1 7 0 0 0, .none)]).getLast? = some (.ok x) ∧
+      x ≠ y ∧ y ≠ z ∧ x ≠ z :=
+  ⟨by decide, by decide, _, _, _, rfl, rfl, rfl, rfl, by decide +kernel, by decide +kernel,
+    by decide +kernel⟩
 
 /-! ## the transaction builder at the level of openings -/
 
